@@ -71,6 +71,14 @@ def run(rep, props, replay=None):
                          f"(mtv opsQ {len(xs)}%nat {C.qmat(Bm)} {C.qlist(xi)}) {C.qlist(xs)}")
             todo.append((t, "B-splines reproduce the identity with the Greville coefficients", ("greville", p, nf, a, b, xs.tobytes()),
                          opts, nseg >= 2))
+            if p >= 2:      # quadratic Marsden identity: sum_j e2(t_{j+1..j+p}) B_j(x) = C(p,2) x^2
+                knots = [a + dxk * (k - p) for k in range(nf + p + 1)]
+                e2 = np.array([sum(knots[j + i] * knots[j + k] for i in range(1, p + 1) for k in range(i + 1, p + 1)) for j in range(nf)])
+                sc2 = max(1.0, abs(a), abs(b)) ** 2 * p * p
+                t = runq.add(f"vclose {C.qlit(1e-9 * sc2 * max(1.0, float(nseg) ** p))} "
+                             f"(mtv opsQ {len(xs)}%nat {C.qmat(Bm)} {C.qlist(e2)}) {C.qlist(p * (p - 1) / 2.0 * xs * xs)}")
+                todo.append((t, "B-splines reproduce x^2 with the second elementary symmetric polynomials of the knots (Marsden)",
+                             ("marsden2", p, nf, a, b, xs.tobytes()), opts, nseg >= 2))
         bad = []
         if Bm.shape != (nf, len(xs)):
             bad.append(f"shape {Bm.shape}")
